@@ -1,0 +1,26 @@
+//go:build verif
+// +build verif
+
+package socket
+
+import "sync/atomic"
+
+// VerifPending returns the number of pending-call entries of a connection passed to a verif gate.
+func VerifPending(c interface{}) int {
+	cc := c.(*conn)
+	cc.lock.Lock()
+	defer cc.lock.Unlock()
+	return len(cc.results)
+}
+
+// VerifSetCounter sets the request counter of a connection passed to a verif gate.
+func VerifSetCounter(c interface{}, n int32) {
+	atomic.StoreInt32(&c.(*conn).counter, n)
+}
+
+// VerifPooled returns the number of pooled connections.
+func (trans *Transport) VerifPooled() int {
+	trans.lock.RLock()
+	defer trans.lock.RUnlock()
+	return len(trans.conns)
+}
